@@ -357,39 +357,50 @@ func influxLines(c *Case) []byte {
 	return b.Bytes()
 }
 
+// ddLogJSON builds the document as a tree (an array of log objects, members in an order drawn from r); the wire text is
+// its rendering and the tree goes into the Coq case (coq/model/DatadogJson.v walks it as DecodeEntry does)
 func ddLogJSON(c *Case, r *rand.Rand) []byte {
-	var items []string
+	var items []JV
 	for _, e := range c.Body.DDLog {
-		var m []string
-		if len(e.Tags) > 0 || r.Intn(3) == 0 {
+		var m []JKV
+		if e.TagsText != nil {
+			m = append(m, kv("ddtags", jS(string(*e.TagsText))))
+		} else if len(e.Tags) > 0 || r.Intn(3) == 0 {
 			parts := make([]string, len(e.Tags))
 			for i, t := range e.Tags {
 				parts[i] = string(t.K) + ":" + string(t.V)
 			}
-			m = append(m, `"ddtags":`+js(Str(strings.Join(parts, ","))))
+			m = append(m, kv("ddtags", jS(strings.Join(parts, ","))))
 		}
 		if e.Source != nil {
-			m = append(m, `"ddsource":`+js(*e.Source))
+			m = append(m, kv("ddsource", jS(string(*e.Source))))
 		}
 		if e.Service != nil {
-			m = append(m, `"service":`+js(*e.Service))
+			m = append(m, kv("service", jS(string(*e.Service))))
 		}
 		if e.Hostname != nil {
-			m = append(m, `"hostname":`+js(*e.Hostname))
+			m = append(m, kv("hostname", jS(string(*e.Hostname))))
 		}
 		if e.SType != nil {
-			m = append(m, `"source_type":`+js(*e.SType))
+			m = append(m, kv("source_type", jS(string(*e.SType))))
 		}
-		m = append(m, `"message":`+js(e.Message))
+		m = append(m, kv("message", jS(string(e.Message))))
 		if e.TsMs != 0 {
-			m = append(m, `"timestamp":`+strconv.FormatInt(e.TsMs, 10))
+			m = append(m, kv("timestamp", jN(strconv.FormatInt(e.TsMs, 10))))
 		}
 		if r.Intn(5) == 0 {
-			m = append(m, `"status":"info"`)
+			m = append(m, kv("status", jS("info")))
 		}
-		items = append(items, objectOf(r, m))
+		items = append(items, shuffledObject(r, m))
 	}
-	return []byte("[" + strings.Join(items, ",") + "]")
+	doc := jA(items...)
+	if c.Damage {
+		doc, _ = damageDoc(r, doc, 0)
+	}
+	c.doc = &doc
+	var sb strings.Builder
+	doc.render(&sb)
+	return []byte(sb.String())
 }
 
 func ddMetJSON(c *Case, r *rand.Rand) []byte {
